@@ -34,6 +34,8 @@ mod c14;
 mod c15;
 #[cfg(feature = "c15e")]
 mod c15e;
+#[cfg(feature = "c01e")]
+mod c01e;
 #[cfg(feature = "c19")]
 mod c19;
 #[cfg(feature = "c20")]
@@ -98,6 +100,8 @@ fn main() {
         "C15" => c15::run(seed),
         #[cfg(feature = "c15e")]
         "C15E" => c15e::run(seed, std::env::args().nth(3).as_deref() == Some("thorough")),
+        #[cfg(feature = "c01e")]
+        "C01E" => c01e::run(seed, std::env::args().nth(3).as_deref() == Some("thorough")),
         #[cfg(feature = "c19")]
         "C19" => c19::run(seed, std::env::args().nth(3).as_deref() == Some("thorough")),
         #[cfg(feature = "c20")]
